@@ -15,7 +15,10 @@ from typing import Any, Dict, List, Optional, Tuple, Union
 
 import attrs
 
-from common import Verdict
+import re
+
+from common import Verdict, parse_coq_value, run_cases_file
+from lane_tpl import Interner, cN, c_bool, c_list
 from cycle_checks import deep_same, key_deletions, leaf_corruptions, listify, mutate, primitive_only, run, same_outcome
 
 LEAVES = [("int", int), ("str", str), ("float", float), ("bool", bool), ("list_int", List[int]), ("dict_str_int", Dict[str, int]), ("opt_int", Optional[int])]
@@ -165,8 +168,9 @@ def positions(w: UWorld, rng):
     return out
 
 
-def union_battery(v: Verdict, prop: str, n_worlds: int):
+def union_battery(v: Verdict, prop: str, n_worlds: int, t1_summary=None):
     from cattrs import BaseConverter, Converter
+    lane_cases, lane_meta, intern = [], [], Interner()
     rng = random.Random(v.seed * 15485863 + sum(map(ord, prop)) + 5)
     hist = {"worlds": 0, "members": {}, "with_none": 0, "with_fallback": 0, "empty_fallback": 0, "positions": {}, "values": 0, "none_values": 0,
             "roundtrips": 0, "structure_calls": 0, "mode_pairs": 0, "class_pairs": 0}
@@ -183,6 +187,8 @@ def union_battery(v: Verdict, prop: str, n_worlds: int):
             if (full, dv) not in convs:
                 convs[(full, dv)] = (Converter if full else BaseConverter)(detailed_validation=dv)
             return convs[(full, dv)]
+        if prop in ("C01", "C02") and t1_summary is not None:
+            union_lane_cases(w, conv(True, rng.random() < 0.5), t1_summary, intern, lane_cases, lane_meta, v)
         pos = positions(w, rng)
         desc = dict(w.describe(), battery="UNION")
         for label, T, wrap, enc, conf in rng.sample(pos, 3) if v.tier == "quick" else pos:
@@ -252,6 +258,9 @@ def union_battery(v: Verdict, prop: str, n_worlds: int):
                             if not same_outcome(r1, r2):
                                 v.violation("Converter and BaseConverter disagree on the same payload at a class-union position",
                                             dict(case, payload=repr(o), converter=repr(r1), base_converter=repr(r2)))
+    if lane_cases:
+        hist["model_cases"] = len(lane_cases)
+        run_union_lane(v, prop, lane_cases, lane_meta)
     v.coverage["union_battery"] = hist
 
 
@@ -270,3 +279,61 @@ def mapping_shaped(label, o):
     if label == "attribute x: U":
         return type(o) is dict and all(type(k) is str for k in o) and ("x" not in o or member(o["x"]))
     return False
+
+
+# ------------------------------------------------------------------------------------ UNION lane (model correspondence)
+
+def union_lane_cases(w: UWorld, conv, t1_summary, intern, cases, meta, v):
+    """which member (or None, or an error) the union hook of the implementation hands a payload to, vs
+    Model/UnionStruct.v over Model/Disambig.v with the flags T1 read from the current source"""
+    skip = bool((t1_summary.get("disambig") or {}).get("skip_noninit", True))
+
+    def coq_class(i):
+        return "{| dc_id := %s; dc_fields := %s |}" % (cN(i + 1), c_list(
+            "{| df_name := %s; df_required := %s; df_init := true; df_lit := None |}" % (cN(intern(n)), c_bool(d is NODEFAULT))
+            for n, _l, d in w.specs[i][2]))
+    classes = c_list(coq_class(i) for i in w.order)
+    required = "(fun c => " + " ".join(
+        "if N.eqb c %s then %s else" % (cN(i + 1), c_list(cN(intern(n)) for n, _l, d in s_[2] if d is NODEFAULT)) for i, s_ in enumerate(w.specs)) + " [])"
+    payloads = [None, {}]
+    for i in range(len(w.cls)):
+        x = w.instance(i)
+        full = w.encode(x)
+        payloads.append(full)
+        payloads.append({n: full[n] for n, _l, d in w.specs[i][2] if d is NODEFAULT})
+    for o in payloads:
+        try:
+            r = conv.structure(copy.deepcopy(o), w.U)
+            obs = "(Some None)" if r is None else f"(Some (Some {cN(w.cls.index(type(r)) + 1)}))"
+            shown = None if r is None else type(r).__name__
+        except RecursionError:
+            raise
+        except BaseException as e:       # noqa
+            obs, shown = "None", f"raised {type(e).__name__}"
+        pl = "None" if o is None else "(Some %s)" % c_list(f"({cN(intern(k))}, 0%N)" for k in o)
+        cases.append("ures_eqb (union_structure N N %s src_union_none_guard_is_identity (fun ks => resolve 6 (fun l => l) %s true %s ks (fun _ => None)) "
+                     "(fun c d => if forallb (fun k => mem_N k (keys d)) (%s c) then Ok c else Err EKey) %s) %s" % (
+                         c_bool(w.has_none), c_bool(skip), classes, required, pl, obs))
+        meta.append(dict(w.describe(), payload=repr(o), observed=shown))
+        v.count(repr(("union-lane", w.spelling, [s_[2] for s_ in w.specs], repr(o))), True)
+
+
+def run_union_lane(v, prop, cases, meta):
+    pre = ("From V.Model Require Import Base Disambig UnionStruct.\nFrom V.Gen Require Import UStructSrc.\n"
+           "Definition ures_eqb (a : result (option N)) (b : option (option N)) : bool :=\n"
+           "  match a, b with Ok (Some x), Some (Some y) => N.eqb x y | Ok None, Some None => true | Err _, None => true | _, _ => false end.\n")
+    bad = []
+    shard = 300
+    for k in range(0, len(cases), shard):
+        src = (pre + "Definition cs : list bool := [\n" + ";\n".join(cases[k:k + shard]) + "\n].\n"
+               "Fixpoint bad (k : nat) (l : list bool) : list nat := match l with [] => [] | b :: r => if b then bad (S k) r else k :: bad (S k) r end.\n"
+               "Eval vm_compute in (bad 0 cs).\n")
+        rc, out = run_cases_file(f"union_{prop}_{v.seed}_{k}", src)
+        vals = parse_coq_value(out)
+        if rc != 0 or not vals:
+            v.obligation("correspondence:UNION:coqc", False, out[-700:])
+            return
+        if vals[-1] != "[]":
+            bad += [k + int(x) for x in re.findall(r"\d+", vals[-1])]
+    v.obligation("correspondence:UNION (model: which member hook a class-union payload reaches, or None / an error = implementation)", not bad,
+                 "" if not bad else f"{len(bad)} of {len(cases)} disagree, first: {meta[bad[0]]}")
